@@ -142,6 +142,14 @@ func (pc *virtualPacketConn) ReadFrom(p []byte) (int, net.Addr, error) {
 		err  error
 	}, 1)
 
+	// A closed connection must not compete for packets: `select` picks randomly
+	// among ready cases, so check for closure first.
+	select {
+	case <-pc.closeCh:
+		return 0, nil, net.ErrClosed
+	default:
+	}
+
 	select {
 	case pc.readCh <- readRequest{
 		buffer: p,
